@@ -56,7 +56,7 @@ type Node struct {
 	PTs     []PTSpec   `json:"pts,omitempty"`
 	Fields  []*Field   `json:"fields,omitempty"`
 	Elem    *Node      `json:"elem,omitempty"`
-	CT      string     `json:"ct,omitempty"`       // custom: "string"|"int"; pre: "any_str"|"str_list"
+	CT      string     `json:"ct,omitempty"`       // custom: "string"|"int"; pre: "any_str"|"str_list"|"rec_pass"
 	ReqOpt  *TestSpec  `json:"req_opt,omitempty"`  // options passed to Required()/NotNil(): Msg, Code, Path
 	Extra   bool       `json:"extra,omitempty"`    // struct: the destination type has two more fields than the schema describes
 	OptCall bool       `json:"opt_call,omitempty"` // optional node built as .Required().Optional()
@@ -1063,6 +1063,12 @@ func (e *Engine) Build(n *Node) z.ZogSchema {
 	case "pre":
 		inner := e.Build(n.Elem)
 		switch n.CT {
+		case "rec_pass":
+			// Preprocess in front of a nested record: the function is handed the record (a map) and passes it on
+			return z.Preprocess[map[string]any, map[string]any](func(data map[string]any, ctx z.Ctx) (map[string]any, error) {
+				e.record(n, "pre", 0, data, ctx, false)
+				return data, nil
+			}, inner)
 		case "str_list":
 			return z.Preprocess[string, []string](func(data string, ctx z.Ctx) ([]string, error) {
 				rec := e.record(n, "pre", 0, data, ctx, false)
